@@ -35,6 +35,12 @@ chk("C11","Bounded exhaustive exploration of SetValueForPath/Remove/RenameKey: e
 chk("C12","Bounded exhaustive exploration of NewMap: every Map template up to a node bound x every single key pair (plain/wildcard/indexed old paths, dotted new paths, shorthand, malformed forms) and every list of two pairs from a reduced set incl. equal/extending new paths; oracle: receiver deep-equal AND no monitored store into any container reachable from it (decides aliasing writes), malformed => error, exact content vs a reference projection when new paths do not overlap.",
     TB+"Write monitor as in C11. Content oracle uses ValuesForPath on a pristine copy (validated by C07). Bounds: <=5/6 nodes (single pairs), <=4/5 (pair lists).",
     "explicit small-scope enumeration of (Map, key pairs) on the implementation; store monitor + reference projection")
+chk("C02","Bounded exhaustive exploration of the XML round trip on the real decoder and encoders: every element tree up to an element bound with <=1 decoration under all 512 symmetric option configurations (incl. both escaping switches requested in either order), 2 decorations under configurations with <=2 deviations; Xml and XmlIndent with three prefix/indent pairs; oracle: well-formed single-root output, decode(encode(m1)) == m1, and an independent reference decode of the re-encoded text equals m1; map order owned (ascending, descending, single deviations on small documents); returned bytes retained and re-checked after later calls.",
+    TB+"Reference: mc/harness/ref_xml.go + parseXElem. Bounds: <=4/5 elements, <=2 decorations. One open known finding (space indent under keep-spaces).",
+    "explicit small-scope enumeration of (document, configuration, encoder) on the implementation; differential round-trip oracle + lock-step reference model; owned map order")
+chk("C03","Bounded exhaustive exploration of the XML encoders on JSON-shaped values: every value template up to a node bound over ordinary, attribute and text keys with strings, blanks, empty strings, numbers, booleans, nulls, empty/nested/mixed lists, as multi-key root, single-key root and AnyXml argument (default/explicit tags), for Map.Xml, Map.XmlIndent, AnyXml, AnyXmlIndent, j2x.JsonToXml, plus a special-character family under XMLEscapeChars(true); oracle: well-formed single-root output whose decode equals the reference decode of the abstract document the encoding rules denote.",
+    TB+"Reference: mc/harness/c03.go (jsonToItems) + ref_xml.go. Bounds: <=5/6 nodes. Attribute/text entries never stand where an element name is required.",
+    "explicit small-scope enumeration of (value, encoder) on the implementation with a lock-step reference model; owned map order")
 ALL=["C%02d"%i for i in range(1,21)]
 na=[{"property_id":p,"reason":"check not built yet in this round (planned: see DESIGN.md section 6); will be claimed once its harness is committed"} for p in ALL if p not in C]
 m={"version":1,
